@@ -1464,6 +1464,16 @@ def parse_unittest(test):
     return testSuite, testName, testClassName
 
 
+_invalid_xml_chars = re.compile(
+    '[^\t\n\r\x20-\ud7ff\ue000-\ufffd\U00010000-\U0010ffff]')
+
+
+def xml_safe(text):
+    """Escape the characters that must not occur in an XML 1.0 document."""
+    return _invalid_xml_chars.sub(
+        lambda match: '\\x%02x' % ord(match.group()), text)
+
+
 class XMLOutputFormattingWrapper:
     """Output formatter which delegates to another formatter for all
     operations, but also prepares an element tree of test output.
@@ -1553,7 +1563,7 @@ class XMLOutputFormattingWrapper:
             testSuiteNode.set('errors', str(suite.errors))
             testSuiteNode.set('failures', str(suite.failures))
             testSuiteNode.set('hostname', hostname)
-            testSuiteNode.set('name', name)
+            testSuiteNode.set('name', xml_safe(name))
             testSuiteNode.set('time', str(suite.time))
             testSuiteNode.set('timestamp', timestamp)
 
@@ -1571,8 +1581,8 @@ class XMLOutputFormattingWrapper:
                 testCaseNode = ElementTree.Element('testcase')
                 testSuiteNode.append(testCaseNode)
 
-                testCaseNode.set('classname', testCase.testClassName)
-                testCaseNode.set('name', testCase.testName)
+                testCaseNode.set('classname', xml_safe(testCase.testClassName))
+                testCaseNode.set('name', xml_safe(testCase.testName))
                 testCaseNode.set('time', str(testCase.time))
 
                 if testCase.error:
@@ -1589,9 +1599,10 @@ class XMLOutputFormattingWrapper:
                     finally:  # Avoids a memory leak
                         del tb
 
+                    errorMessage = xml_safe(errorMessage)
                     errorNode.set('message', errorMessage.split('\n')[0])
-                    errorNode.set('type', str(excType))
-                    text = (errorMessage + '\n\n' + stackTrace)
+                    errorNode.set('type', xml_safe(str(excType)))
+                    text = (errorMessage + '\n\n' + xml_safe(stackTrace))
                     errorNode.text = text
 
                 if testCase.failure:
@@ -1609,9 +1620,10 @@ class XMLOutputFormattingWrapper:
                     finally:  # Avoids a memory leak
                         del tb
 
+                    errorMessage = xml_safe(errorMessage)
                     failureNode.set('message', errorMessage.split('\n')[0])
-                    failureNode.set('type', str(excType))
-                    text = f'{errorMessage}\n\n{stackTrace}'
+                    failureNode.set('type', xml_safe(str(excType)))
+                    text = f'{errorMessage}\n\n{xml_safe(stackTrace)}'
                     failureNode.text = text
 
             # We don't have a good way to capture these yet, so they are empty:
